@@ -221,3 +221,200 @@ func lazyTie(r *Result, dp *DriverPool, rng *rand.Rand, nbase int) {
 	}
 	wg.Wait()
 }
+
+// ---- the lazy LZMA2 reader (Model/LazyDec2.lean) against lzma.Reader2 ----
+
+func lazy2Status(err error) string {
+	if err == nil || err == io.EOF || err == io.ErrUnexpectedEOF {
+		return lazyStatus(err)
+	}
+	switch err.Error() {
+	case "lzma: unexpected chunk type":
+		return "other(unexpected_chunk_type)"
+	case "lzma: invalid properties code":
+		return "other(invalid_properties_code)"
+	}
+	s := lazyStatus(err)
+	if strings.HasPrefix(s, "other(") {
+		if strings.Contains(s, "unsupported_chunk_header") {
+			return "other(unsupported_chunk_header_byte)"
+		}
+		if strings.Contains(s, "first_byte_not_zero") || strings.Contains(s, "newRangeDecoder") || strings.Contains(s, "range_decoder") {
+			return "other(range_decoder_init)"
+		}
+	}
+	return s
+}
+
+func goLazy2(cs lazyCase) (calls []string, delivered []byte) {
+	defer func() {
+		if p := recover(); p != nil {
+			calls = append(calls, "0:panic")
+		}
+	}()
+	rd, err := lzma.Reader2Config{DictCap: cs.DictCap}.NewReader2(bytes.NewReader(unhxe(cs.Stream)))
+	if err != nil {
+		return []string{"0:open"}, nil
+	}
+	for _, sz := range cs.Sizes {
+		p := make([]byte, sz)
+		n, err := rd.Read(p)
+		delivered = append(delivered, p[:n]...)
+		calls = append(calls, fmt.Sprintf("%d:%s", n, lazy2Status(err)))
+		if err != nil {
+			break
+		}
+	}
+	return calls, delivered
+}
+
+func lazy2Tie(r *Result, dp *DriverPool, rng *rand.Rand, nbase int) error {
+	var cases []lazyCase
+	mk := func(name string, stream []byte, content int) {
+		caps := []int{4096, 4096, 5000, 1 << 16, 4097, 0}
+		for v := 0; v < 3; v++ {
+			var sizes []int
+			budget := content + 600
+			switch v {
+			case 0:
+				sz := []int{1, 273, 4095, 4096, 4097, 100000}[rng.Intn(6)]
+				for budget > 0 {
+					sizes = append(sizes, sz)
+					budget -= sz
+				}
+				if len(sizes) > 3000 {
+					sizes = sizes[:3000]
+				}
+			default:
+				for budget > 0 && len(sizes) < 400 {
+					sz := []int{0, 1, 2, 272, 273, 274, 1000, 3823, 3824, 4096, rng.Intn(9000)}[rng.Intn(11)]
+					sizes = append(sizes, sz)
+					budget -= sz
+				}
+			}
+			sizes = append(sizes, 7, 7)
+			cases = append(cases, lazyCase{Op: "lazy2-read", Name: name, Stream: hxe(stream), DictCap: caps[rng.Intn(len(caps))], Sizes: sizes})
+		}
+	}
+	for i := 0; i < nbase; i++ {
+		var s []byte
+		var content int
+		name := ""
+		if i%2 == 0 {
+			// written by the library: several chunks incl. raw ones, flushes
+			var buf bytes.Buffer
+			t := lclppb[rng.Intn(len(lclppb))]
+			cfg := lzma.Writer2Config{Properties: &lzma.Properties{LC: t[0], LP: t[1], PB: t[2]}, DictCap: []int{4096, 8192, 65536}[rng.Intn(3)], BufSize: 4096}
+			w, err := cfg.NewWriter2(&buf)
+			if err != nil {
+				continue
+			}
+			for j := 0; j < 1+rng.Intn(3); j++ {
+				var d []byte
+				if rng.Intn(3) == 0 {
+					d = genRandom(rng, rng.Intn(12000))
+				} else {
+					_, d = pickData(rng, 12000)
+				}
+				w.Write(d)
+				content += len(d)
+				if rng.Intn(2) == 0 {
+					w.Flush()
+				}
+			}
+			w.Close()
+			s, name = buf.Bytes(), "lib"
+		} else {
+			// spec-encoder chunk sequences: all chunk kinds, resets, raw chunks, window-edge distances
+			g := &opGen{rng: rng, dictSize: 4096}
+			specs, kinds := genChunks(g, 1+rng.Intn(6), 60)
+			rep, err := dp.Ask("lzma2build 4096 " + strings.Join(append(specs, "eos/-/-"), " "))
+			if err != nil {
+				return err
+			}
+			if rep == "bad-op" || strings.HasPrefix(rep, "fail") {
+				continue
+			}
+			s, content, name = unhxe(rep), len(g.content), "spec/"+strings.Join(kinds, "+")
+		}
+		mk(name, s, content)
+		switch i % 5 {
+		case 0:
+			mk("truncated/"+name, s[:rng.Intn(len(s)+1)], content)
+		case 1:
+			m := append([]byte{}, s...)
+			m[rng.Intn(len(m))] ^= 1 << uint(rng.Intn(8))
+			mk("bitflip/"+name, m, content)
+		case 2:
+			mk("appended/"+name, append(append([]byte{}, s...), genRandom(rng, 1+rng.Intn(8))...), content)
+		case 3:
+			mk("no-eos/"+name, s[:len(s)-1], content)
+		case 4:
+			// header fields of the first chunk: control byte, size bytes, properties byte
+			m := append([]byte{}, s...)
+			j := []int{0, 0, 1, 3, 4, 5, 5}[rng.Intn(7)]
+			if j < len(m) {
+				m[j] = byte(rng.Intn(256))
+			}
+			mk("header/"+name, m, content)
+		}
+	}
+	var wg sync.WaitGroup
+	sem := make(chan struct{}, 16)
+	for _, cs := range cases {
+		wg.Add(1)
+		sem <- struct{}{}
+		go func(cs lazyCase) {
+			defer wg.Done()
+			defer func() { <-sem }()
+			goCalls, delivered := goLazy2(cs)
+			q := fmt.Sprintf("lz2lazy %d %s", cs.DictCap, cs.Stream)
+			for _, s := range cs.Sizes {
+				q += fmt.Sprint(" ", s)
+			}
+			rep, err := dp.Ask(q)
+			if err != nil {
+				r.Violate("broken-correspondence", "driver", cs, err.Error())
+				return
+			}
+			r.mu.Lock()
+			r.TracesVsImpl++
+			r.mu.Unlock()
+			r.Inc("lazy2_reader_runs")
+			r.Inc("lazy2_" + strings.SplitN(cs.Name, "/", 2)[0])
+			parts := strings.Split(rep, " | ")
+			if len(parts) < 2 {
+				r.Violate("broken-correspondence", "lazy2-reader: bad driver reply", cs, truncate(rep, 200))
+				return
+			}
+			if len(goCalls) > 0 {
+				r.Inc("lazy2_final_" + strings.SplitN(strings.SplitN(goCalls[len(goCalls)-1], ":", 2)[1], "(", 2)[0])
+			}
+			mCalls := strings.Fields(parts[0])
+			for i := range goCalls {
+				if i >= len(mCalls) || mCalls[i] != goCalls[i] {
+					got := "<none>"
+					if i < len(mCalls) {
+						got = mCalls[i]
+					}
+					kind := "broken-correspondence"
+					if strings.HasSuffix(goCalls[i], ":panic") || strings.HasSuffix(goCalls[i], ":noSpace") {
+						kind = "counterexample"
+					}
+					r.Violate(kind, "lazy2-reader call result "+strings.SplitN(cs.Name, "/", 2)[0], cs,
+						fmt.Sprintf("call %d (buffer %d): real lzma.Reader2 returned n:status = %s, the lazy LZMA2 reader model (Model/LazyDec2.lean) says %s", i, cs.Sizes[minInt(i, len(cs.Sizes)-1)], goCalls[i], got))
+					return
+				}
+			}
+			if len(mCalls) != len(goCalls) {
+				r.Violate("broken-correspondence", "lazy2-reader call count", cs, fmt.Sprintf("go made %d calls before stopping, the model %d", len(goCalls), len(mCalls)))
+				return
+			}
+			if strings.TrimSpace(parts[1]) != hxe(delivered) {
+				r.Violate("broken-correspondence", "lazy2-reader delivered bytes", cs, fmt.Sprintf("go delivered %d bytes, the model %d", len(delivered), len(unhxe(strings.TrimSpace(parts[1])))))
+			}
+		}(cs)
+	}
+	wg.Wait()
+	return nil
+}
